@@ -70,14 +70,16 @@ def scanDecBody (k : Str → Bool) (s : Str) : Bool :=
   if r.length < s.length then
     -- `[0-9]+` matched (greedy); optional `\.[0-9]*`
     match r with
-    | '.' :: f => k (f.dropWhile isDigit)
-    | _ => k r
+    | c :: f => if c == '.' then k (f.dropWhile isDigit) else k r
+    | [] => k r
   else
     match s with
-    | '.' :: f =>
-      let r2 := f.dropWhile isDigit
-      decide (r2.length < f.length) && k r2
-    | _ => false
+    | c :: f =>
+      if c == '.' then
+        let r2 := f.dropWhile isDigit
+        decide (r2.length < f.length) && k r2
+      else false
+    | [] => false
 
 /-- proxies.py:79 `DecimalProxy.pattern = ^[+-]?(?:[0-9]+(?:\.[0-9]*)?|\.[0-9]+)$` -/
 def matchDecimal (s : Str) : Bool := scanDecBody atEnd (optSign s)
@@ -160,17 +162,21 @@ structure PyDec where
   fp : Str
 deriving DecidableEq, Repr
 
+/-- digits before / after the point of an unsigned literal matching the decimal pattern -/
+def decParts (body : Str) : Str × Str :=
+  match body.dropWhile isDigit with
+  | '.' :: f => (body.takeWhile isDigit, f.takeWhile isDigit)
+  | _ => (body.takeWhile isDigit, [])
+
+/-- sign flag and unsigned part -/
+def signSplit : Str → Bool × Str
+  | '-' :: r => (true, r)
+  | '+' :: r => (false, r)
+  | r => (false, r)
+
 /-- `Decimal(s)` for `s` matching `DecimalProxy.pattern` -/
 def decOfLex (s : Str) : PyDec :=
-  let (neg, body) := match s with
-    | '-' :: r => (true, r)
-    | '+' :: r => (false, r)
-    | r => (false, r)
-  let ip := body.takeWhile isDigit
-  let rest := body.dropWhile isDigit
-  match rest with
-  | '.' :: f => ⟨neg, ip, f.takeWhile isDigit⟩
-  | _ => ⟨neg, ip, []⟩
+  ⟨(signSplit s).1, (decParts (signSplit s).2).1, (decParts (signSplit s).2).2⟩
 
 /-- coefficient and exponent as `Decimal.as_tuple()` shows them: `(int(ip++fp), -len(fp))` -/
 def PyDec.coef (d : PyDec) : Nat := digitsVal (d.ip ++ d.fp)
@@ -193,6 +199,13 @@ def decCanon (d : PyDec) : Str :=
 
 inductive Err | value | type | arith
 deriving DecidableEq, Repr
+
+/-- decidable equality of results, so that concrete witnesses can be checked by `decide` -/
+instance decEqExcept {ε α} [DecidableEq ε] [DecidableEq α] : DecidableEq (Except ε α)
+  | .ok a, .ok b => if h : a = b then isTrue (by rw [h]) else isFalse (fun e => h (by cases e; rfl))
+  | .error a, .error b => if h : a = b then isTrue (by rw [h]) else isFalse (fun e => h (by cases e; rfl))
+  | .ok _, .error _ => isFalse (fun e => by cases e)
+  | .error _, .ok _ => isFalse (fun e => by cases e)
 
 /-- integer family: `(lower, higher)` as stored in `_lower_bound/_higher_bound`
 (`higher` is EXCLUSIVE: numeric.py:190 `self >= self._higher_bound` raises) -/
@@ -370,5 +383,29 @@ def b64Decode : Str → Option (List Byte)
 def castB64ToHex (v : Str) : Option Str := (b64Decode v).map hexEncode
 /-- binary.py:50-52 `Base64Binary(HexBinary)` -/
 def castHexToB64 (v : Str) : Option Str := (hexDecode v).map b64Encode
+
+end EPV.Lex
+
+namespace EPV.Lex
+
+/-- numeric.py:203-267: `_lower_bound, _higher_bound` of every class of the integer family, in the
+order of definition.  `higher` is exclusive.  (The live values are emitted by the translator into
+`EPV.Gen.C10.intTable`; `EPV.C10.int_table_eq_model` proves the two tables equal.) -/
+def intBounds : List (String × Bounds) := [
+  ("integer", ⟨none, none⟩),
+  ("nonPositiveInteger", ⟨none, some 1⟩),
+  ("negativeInteger", ⟨none, some 0⟩),
+  ("long", ⟨some (-(2:Int)^63), some ((2:Int)^63)⟩),
+  ("int", ⟨some (-(2:Int)^31), some ((2:Int)^31)⟩),
+  ("short", ⟨some (-(2:Int)^15), some ((2:Int)^15)⟩),
+  ("byte", ⟨some (-(2:Int)^7), some ((2:Int)^7)⟩),
+  ("nonNegativeInteger", ⟨some 0, none⟩),
+  ("positiveInteger", ⟨some 1, none⟩),
+  ("unsignedLong", ⟨some 0, some ((2:Int)^64)⟩),
+  ("unsignedInt", ⟨some 0, some ((2:Int)^32)⟩),
+  ("unsignedShort", ⟨some 0, some ((2:Int)^16)⟩),
+  ("unsignedByte", ⟨some 0, some ((2:Int)^8)⟩)]
+
+def boundsOf (name : String) : Option Bounds := (intBounds.find? (·.1 == name)).map (·.2)
 
 end EPV.Lex
